@@ -332,44 +332,55 @@ Rule(e, cx, ts, bs) ==
          IF lt = NoneV THEN Rej("VariableDoesntExist") ELSE AsgType("+=", lt, Arr(TInt))
     [] OTHER -> Rej("unknown-node")
 
-RECURSIVE TypeOf(_, _), TypeStmts(_, _)
+RECURSIVE TypeOf(_, _), TypeKids(_), TypeStmts(_, _), AfterHead(_, _, _)
 
-TypeOf(e, cx) ==
-  LET k1 == Kids(e, cx)
-      t1 == [i \in 1..Len(k1) |-> TypeOf(k1[i].e, k1[i].cx)]
-      k2 == Kids2(e, cx, t1)
-      ts == t1 \o [i \in 1..Len(k2) |-> TypeOf(k2[i].e, k2[i].cx)]
-      bs == IF OwnsBody(e) THEN TypeStmts(e.body, BodyCx(e, cx)) ELSE NoBody
-      rj == FirstRej(ts)
-  IN IF rj # NoneV THEN rj
-     ELSE IF IsRej(bs) THEN bs
-     ELSE Rule(e, cx, ts, bs)
+\* the types of a list of sub-expressions, each in its context
+TypeKids(ks) == [i \in 1..Len(ks) |-> TypeOf(ks[i].e, ks[i].cx)]
+
+\* ts: types of all sub-expressions; bs: result of the owned statement list.  The first rejection wins.
+Conclude(e, cx, ts, bs) ==
+  IF FirstRej(ts) # NoneV THEN FirstRej(ts)
+  ELSE IF IsRej(bs) THEN bs
+  ELSE Rule(e, cx, ts, bs)
+WithKids2(e, cx, t1) ==
+  Conclude(e, cx, t1 \o TypeKids(Kids2(e, cx, t1)),
+           IF OwnsBody(e) THEN TypeStmts(e.body, BodyCx(e, cx)) ELSE NoBody)
+TypeOf(e, cx) == WithKids2(e, cx, TypeKids(Kids(e, cx)))
 
 (* Statement lists: `x := e', `(a, b) := e' and `f := (..) -> r {..}' extend the environment of the statements
    that follow; a declared function sees its own name (its parameters shadow it).  Result: the type of the last
    statement (() for an empty list), the environment at the end, and whether some statement has type ! (which is
    what "cannot fall off the end" means to the checker). *)
-FnNode(s) == [k |-> "fn", ps |-> s.ps, r |-> s.r, body |-> s.body]
+DeclSig(s) == Fn(ParamTs(s.ps), Unwire(s.r))
+\* what is typed for a statement, and in which context
+Target(s) == CASE s.k \in {"set", "destruct"} -> s.e
+               [] s.k = "fndecl" -> [k |-> "fn", ps |-> s.ps, r |-> s.r, body |-> s.body]
+               [] OTHER -> s
+StmtCx(s, cx) == IF s.k = "fndecl" THEN WithName(cx, s.n, DeclSig(s)) ELSE cx
+\* a destructuring needs a tuple type of one known length (unions: the same length in every member)
+DestructBad(s, t) ==
+  IF s.k # "destruct" THEN NoneV
+  ELSE IF ~QIsTuple(t) THEN Rej("NotATuple")
+  ELSE IF QTupleLen(t) = -1 THEN Rej("CannotDetermineLength")
+  ELSE IF QTupleLen(t) # Len(s.ns) THEN Rej("WrongLength")
+  ELSE NoneV
+\* the environment after the statement, t its type
+EnvAfter(s, cx, t) ==
+  CASE s.k = "set" -> BindT(cx.env, s.n, t)
+    [] s.k = "destruct" -> BindNames(cx.env, s.ns, QFlattenTuple(t).es, 1)
+    [] s.k = "fndecl" -> BindT(cx.env, s.n, DeclSig(s))
+    [] OTHER -> cx.env
+ThenRest(t, r) == IF IsRej(r) THEN r ELSE OkS(r.t, r.env, r.nev \/ IsNever(t))
+
+\* t: the type of the head statement
+AfterHead(ss, cx, t) ==
+  IF IsRej(t) THEN t
+  ELSE IF DestructBad(Head(ss), t) # NoneV THEN DestructBad(Head(ss), t)
+  ELSE IF Len(ss) = 1 THEN OkS(t, EnvAfter(Head(ss), cx, t), IsNever(t))
+  ELSE ThenRest(t, TypeStmts(Tail(ss), [cx EXCEPT !.env = EnvAfter(Head(ss), cx, t)]))
 TypeStmts(ss, cx) ==
   IF ss = <<>> THEN OkS(TVoid, cx.env, FALSE)
-  ELSE
-    LET s == Head(ss)
-        sig == Fn(ParamTs(s.ps), Unwire(s.r))                  \* fndecl only
-        cx1 == IF s.k = "fndecl" THEN WithName(cx, s.n, sig) ELSE cx
-        t == TypeOf(CASE s.k \in {"set", "destruct"} -> s.e [] s.k = "fndecl" -> FnNode(s) [] OTHER -> s, cx1)
-        env2 == CASE s.k = "set" -> BindT(cx.env, s.n, t)
-                  [] s.k = "destruct" -> BindNames(cx.env, s.ns, QFlattenTuple(t).es, 1)
-                  [] OTHER -> cx1.env
-        bad == IF s.k # "destruct" THEN NoneV
-               ELSE IF ~QIsTuple(t) THEN Rej("NotATuple")
-               ELSE IF QTupleLen(t) = -1 THEN Rej("CannotDetermineLength")
-               ELSE IF QTupleLen(t) # Len(s.ns) THEN Rej("WrongLength")
-               ELSE NoneV
-    IN IF IsRej(t) THEN t
-       ELSE IF bad # NoneV THEN bad
-       ELSE IF Len(ss) = 1 THEN OkS(t, env2, IsNever(t))
-       ELSE LET r == TypeStmts(Tail(ss), [cx EXCEPT !.env = env2]) IN
-            IF IsRej(r) THEN r ELSE OkS(r.t, r.env, r.nev \/ IsNever(t))
+  ELSE AfterHead(ss, cx, TypeOf(Target(Head(ss)), StmtCx(Head(ss), cx)))
 
 TypeProg(prog) == TypeStmts(prog, Cx(InitTEnv, NoneV, FALSE))
 Accepts(prog) == ~IsRej(TypeProg(prog))
